@@ -6,11 +6,15 @@
 # Prints one line per property: CAUGHT (exit 1 with a VIOLATION line), MISSED (exit 0) or TROUBLE (exit 2).
 set -u
 D="$(cd "$1" && pwd)"; shift
-cd /verif
+# work from a frozen copy of /verif: edits made meanwhile cannot break the run, and the evidence
+# written by runs against a changed tree does not overwrite /verif/evidence
+SNAP=$(mktemp -d /dev/shm/verifsnap-XXXXXX)
+rsync -a --exclude .git --exclude bin --exclude evidence --exclude replays --exclude seeded /verif/ "$SNAP/"
+cd "$SNAP"
 WT=$(mktemp -d /dev/shm/seedwt-XXXXXX)
 rmdir "$WT"
 git -C /repo worktree add -q "$WT" HEAD || { echo "seedcheck: cannot create worktree"; exit 2; }
-trap 'git -C /repo worktree remove --force "$WT" >/dev/null 2>&1; git -C /repo worktree prune' EXIT
+trap 'git -C /repo worktree remove --force "$WT" >/dev/null 2>&1; git -C /repo worktree prune; rm -rf "$SNAP"' EXIT
 git -C "$WT" apply "$D/patch.diff" || { echo "seedcheck: patch does not apply: $D"; exit 2; }
 for P in "$@"; do
   out=$(VERIF_REPO="$WT" VERIF_TIER="${SEED_TIER:-quick}" ./check.sh "$P" "${SEED_TIER:-quick}" 2>&1); rc=$?
